@@ -3,7 +3,7 @@
    Request: (op args...).  Extracted with ExtrOcamlBasic only. *)
 From PV Require Import Gen.PyFuns.
 From PV Require Import Base.Outcome Base.Prim Spec.PrimSpec Model.C20Types
-  Spec.C20Attr Spec.C20Ehabi Model.C20Attr Model.C20Ehabi.
+  Spec.C20Attr Spec.C20Ehabi Model.C20Attr Model.C20Ehabi Spec.C20Hist Model.C20Hist.
 Open Scope string_scope.
 Open Scope list_scope.
 
@@ -89,6 +89,64 @@ Definition model_mnemonics (r : eh_out) : sx :=
   | Err e => sx_of_err e
   end.
 
+(* ---------- histories (Spec/C20Hist.v, Model/C20Hist.v) ---------- *)
+Definition g_filter (s : sx) : option (list Z) := match s with SB b => Some b | _ => None end.
+Definition g_hop (s : sx) : hop :=
+  let l := gL s in
+  let k := gS (nthx 0 l) in
+  if k =? "start" then OStart (gnat (nthx 1 l)) (g_filter (nthx 2 l))
+  else if k =? "next" then ONext (gnat (nthx 1 l))
+  else if (k =? "close") || (k =? "drop") then OClose (gnat (nthx 1 l))
+  else if k =? "num" then ONum (gnat (nthx 1 l))
+  else if k =? "list" then OList (gnat (nthx 1 l))
+  else if k =? "iter" then OIter (gnat (nthx 1 l)) (g_filter (nthx 2 l))
+  else ODisturb (gI (nthx 1 l)).
+Definition sx_view (v : view) : sx :=
+  match v with
+  | VSubsec len vendor => SL [SS "subsec"; SI len; SB vendor]
+  | VSubsub h => SL [SS "subsub"; sx_oattr h]
+  | VAttr a => SL [SS "attr"; sx_oattr a]
+  end.
+Definition sx_hans (a : hans) : sx :=
+  match a with
+  | HUnit => SL [SS "unit"]
+  | HItem id v => SL [SS "item"; match id with Some n => SI (Z.of_nat n) | None => sx_none end; sx_view v]
+  | HStop => SL [SS "stop"]
+  | HInt n => SL [SS "int"; SI n]
+  | HItems first l => SL [SS "items"; SI (Z.of_nat first); SL (map sx_view l)]
+  | HErr e => sx_of_err e
+  | HBad => SL [SS "bad"]
+  end.
+Definition g_eop (s : sx) : eop :=
+  let l := gL s in
+  let k := gS (nthx 0 l) in
+  if k =? "num" then ENum
+  else if k =? "get" then EGet (gI (nthx 1 l))
+  else if k =? "fields" then EFields (gnat (nthx 1 l))
+  else if k =? "mnem" then EMnem (gnat (nthx 1 l))
+  else if k =? "decoder" then EDecoder (gnat (nthx 1 l))
+  else if k =? "redecode" then ERedecode (gnat (nthx 1 l))
+  else ERead (gnat (nthx 1 l)).
+Definition sx_eans (a : eans) : sx :=
+  match a with
+  | EAInt n => SL [SS "int"; SI n]
+  | EAEntry r => SL [SS "entry"; sx_entry r sx_none]
+  | EAMnem None => SL [SS "mnem"; sx_none]
+  | EAMnem (Some l) => SL [SS "mnem"; sx_items l]
+  | EAErr e => sx_of_err e
+  | EABad => SL [SS "bad"]
+  end.
+(* the stateless oracle of an index whose entries are [ents], the first at [off] *)
+Definition spec_entry_at (off : Z) (ents : list eh_abs) (n : Z) : res eh_out :=
+  if ((0 <=? n)%Z && (n <? zlen ents)%Z)%bool then
+    match nth_error ents (Z.to_nat n) with
+    | Some a => Ok (expected_entry (off + 8 * n)%Z a)
+    | None => Err (EPy "IndexError")
+    end
+  else Err (EPy "IndexError").
+Definition spec_disasm_res (b : list Z) : res mnitems :=
+  match spec_disasm (S (List.length b)) b with Some l => Ok l | None => Err (EPy "truncated") end.
+
 Definition dispatch (req : sx) : sx :=
   let l := gL req in
   let op := gS (nthx 0 l) in
@@ -100,7 +158,17 @@ Definition dispatch (req : sx) : sx :=
   else if op =? "attr_expected" then sx_ok (sx_section (expected_section (g_flavour a1) (g_section a2)))
   else if op =? "attr_model" then
     sx_res sx_section (read_attr_section (g_impl a1) (gbool a2) (gB a3) (gI a4) (gI a5))
+  else if op =? "attr_hist_model" then
+    sx_res (fun r => SL (map sx_hans r))
+           (attr_hist (g_impl a1) (gbool a2) (gB a3) (gI a4) (gI a5) (map g_hop (gL (nthx 6 l))))
+  else if op =? "attr_hist_spec" then
+    sx_ok (SL (map sx_hans (spec_hist (expected_section (g_flavour a1) (g_section a2)) (map g_hop (gL a3)))))
   (* ---- EHABI ---- *)
+  else if op =? "eh_hist_model" then
+    SL (map sx_eans (eh_hist (gB a1) (gbool a2) (gI a3) (gI a4) (map g_eop (gL a5))))
+  else if op =? "eh_hist_spec" then
+    let ents := map g_entry (gL a2) in
+    SL (map sx_eans (eh_spec_hist (zlen ents) (spec_entry_at (gI a1) ents) spec_disasm_res (map g_eop (gL a3))))
   else if op =? "prel31_model" then SI (PV.Gen.PyFuns.gen_arm_expand_prel31 (gI a1) (gI a2))   (* translated body; = hand model by theorem *)
   else if op =? "prel31_spec" then SI (prel31_spec (gI a1) (gI a2))
   else if op =? "eh_enc" then
